@@ -479,3 +479,27 @@ PROPS['C18'] = dict(
     technique='differential runtime monitoring across loaders and build configurations: element-wise comparison of handle behaviour on model-derived probes, offline diff of recorded behaviour traces (tz-fat on/off), proc-macro-built handles in a dedicated build',
     design_ref='DESIGN.md section 4, C18',
 )
+
+PROPS['C19'] = dict(
+    sub='c19',
+    quick=[S('rel'), S('dbg', 'hist_len=4', 'scale_pct=25'), S('tsan', 'part=conc', 'rounds=3', 'conc_ops=600', shards=4),
+           S('miri', 'part=conc', 'rounds=1', 'threads=3', 'conc_ops=12', shards=8, miri_seeds='0..4', timeout=1500)],
+    thorough=[S('rel'), S('dbg', 'hist_len=5'), S('tsan', 'part=conc', 'rounds=12', 'conc_ops=1500', shards=8),
+              S('miri', 'part=conc', 'rounds=1', 'threads=3', 'conc_ops=30', shards=16, miri_seeds='0..8', timeout=14000)],
+    rule='scratch zoneinfo tree and concatenated tzdata file owned by the harness; every write stores a fixed-offset zone whose offset identifies (name, version), atomically, with a strictly increasing mtime; virtual monotonic clock (hook H1). '
+         'Sequential: all histories of length 5 (quick) / 6 (thorough) over {get a, get A (other case), get b, reset, write a, remove a, write b, advance 200 s, advance 301 s} for both back-ends, plus seeded histories of length 8..40 over 3 names x 4 spellings, available(), advances {1,100,150,299,300,301,450,1000} s; '
+         'each lookup judged against the bounded-staleness specification (current disk state, or a state validated at most TTL ago, or for zoneinfo a name missing from a names index read at most TTL ago), canonical name, complete zone, and the path taken (hook H2: fast-hit / revalidate-ok / re-read must match "a changed file is re-read, an unchanged one is reused"). '
+         'Concurrent: 4/8/16 worker threads x 2000 lookups+resets on 3 names against one database while a mutator replaces/removes/adds files and advances the clock, delays injected between read unlock and write lock (H2 callback); history recorded at the client boundary (one atomic stamp counter) and checked offline: every observed version must have been current at some moment in [call - TTL, return]; no panic, no torn zone, bounded progress (120 s watchdog + gdb stacks). '
+         'ThreadSanitizer and Miri (seeds 0..N) run the concurrent part. distinct_nontrivial = distinct sequential histories (every 16th exhaustive one, all seeded ones) + distinct conflict-order patterns of the concurrent histories',
+    floors={'quick': {'sequential_histories': 100000, 'concurrent_gets_checked': 200000, 'path_zoneinfo_fast_hit': 1, 'path_zoneinfo_revalidate_ok': 1, 'path_zoneinfo_reload': 1, 'path_zoneinfo_insert': 1, 'path_zoneinfo_names_refresh': 1, 'path_zoneinfo_reset': 1,
+                      'path_concatenated_fast_hit': 1, 'path_concatenated_revalidate_ok': 1, 'path_concatenated_reload': 1, 'path_concatenated_insert': 1, 'path_concatenated_reset': 1},
+            'thorough': {'sequential_histories': 1000000, 'concurrent_gets_checked': 2000000, 'path_zoneinfo_revalidate_ok': 1, 'path_zoneinfo_reload': 1, 'path_concatenated_revalidate_ok': 1, 'path_concatenated_reload': 1}},
+    assumptions=COMMON_ASSUME + ['files are replaced atomically (rename) and every replacement changes the modification time: revalidation by modification time is the documented mechanism',
+                                 'a database from which every zone has been removed is an error state of both back-ends: available() gets no verdict there',
+                                 '"never deadlocks" is judged as bounded progress: the workload finishes within 120 s; a firing watchdog is a violation only when gdb shows workers parked inside jiff::tz::db, otherwise inconclusive',
+                                 'interleavings are sampled (16 processes x rounds x injected delays, TSan, Miri seeds), not enumerated: the exhaustive small-scope model of the quantifier is model checking and outside this technique family'],
+    level_text='History monitoring of the real database code: exhaustive short and seeded long sequential histories against a bounded-staleness specification under a virtual clock, with the cache path of every lookup observed through hooks; recorded concurrent histories checked offline; the concurrent workload repeated under ThreadSanitizer and Miri.',
+    level_note='Trusted base: the specification model and the offline history checker in harness/src/c19.rs, hooks H1/H2 in /repo (cfg jiff_verif). TTLs are the built-in 5 minutes, reached through the virtual clock.',
+    technique='runtime history monitoring: executable bounded-staleness model over enumerated/seeded sequential histories (virtual clock + path hooks), offline checker over recorded concurrent histories with delay injection, ThreadSanitizer, Miri many-seeds',
+    design_ref='DESIGN.md section 4, C19',
+)
